@@ -22,10 +22,10 @@ def showProto : Proto → String
   | .none => "none" | .tcp => "tcp" | .udp => "udp" | .icmp => "icmp"
 def showAction : Action → String | .permit => "PERMIT" | .deny => "DENY"
 def parseKind : String → Option Kind
-  | "computer" => some .computer | "server" => some .server | "switch" => some .switch
+  | "computer" => some .computer | "server" => some .server | "printer" => some .printer | "switch" => some .switch
   | "router" => some .router | "firewall" => some .firewall | _ => none
 def showKind : Kind → String
-  | .computer => "computer" | .server => "server" | .switch => "switch" | .router => "router" | .firewall => "firewall"
+  | .computer => "computer" | .server => "server" | .printer => "printer" | .switch => "switch" | .router => "router" | .firewall => "firewall"
 def parseState : String → Option (Option Power)
   | "-" => some none | "ON" => some (some .on) | "OFF" => some (some .off) | "BOOTING" => some (some .booting)
   | "SHUTTING_DOWN" => some (some .shuttingDown) | _ => none
